@@ -1,5 +1,9 @@
 """C13 — Blocking calls return once the connection ends (partial).
 
+The order of the wake-ups on both shutdown paths (tail of Transport.run(), Transport.close()) and the guard of
+Channel._event_pending are read from the AST on every run (pv/lib_lockdisc.teardown) and the model's rows are
+built from them, so the theorems are about the order the source has now.
+
 Model: lean/PV/Model/Blocking.lean (wait-loop shapes + the two shutdown paths, any interleaving);
 theorems: lean/PV/Props/C13.lean; driver: lean/Driver/C13.lean.
 Correspondence + oracle: every blocking API x loss mode x phase (blocked before the loss / called after it)
@@ -26,6 +30,8 @@ ROW = {"recv": "recv", "recv_timeout": "recv", "send": "send", "sendall": "send"
        "start_client": "start_client", "accept": "accept", "ensure_session": "ensure_session"}
 LOSSES = ["eof", "disconnect", "garbage", "local_close"]
 PHASES = ["before", "after"]
+# "during": the call is made from inside the shutdown path, at every point of it that can be reached from outside
+REQ_APIS = ["exec_command", "invoke_shell", "get_pty", "invoke_subsystem", "request_x11"]
 
 
 def _disconnect_msg():
@@ -65,7 +71,8 @@ def scenario(api, loss, phase, T, seed):
             tc, ts, sc, ss, srv = lib_net.make_pair(**kw)
         target, tsock, peer = (ts, ss, tc) if server_side else (tc, sc, ts)
         chan = None
-        if api in ("recv", "recv_timeout", "send", "sendall", "exec_command", "recv_exit_status"):
+        if api in ("recv", "recv_timeout", "send", "sendall", "exec_command", "recv_exit_status") or \
+                api in REQ_APIS or (api == "accept" and phase == "during"):
             chan = tc.open_session(timeout=15)
             schan = ts.accept(5)  # keep a reference: a collected Channel closes itself
             if schan is None:
@@ -76,7 +83,7 @@ def scenario(api, loss, phase, T, seed):
             with chan.lock:
                 chan.out_window_size = 0  # the peer's window is exhausted: the sender must wait
         if api in ("exec_command", "open_session", "global_request", "renegotiate_keys", "auth_password",
-                   "ensure_session"):
+                   "ensure_session") or api in REQ_APIS:
             ss.hold()  # the peer never hears the request, so no reply ever comes
 
         def call():
@@ -88,6 +95,14 @@ def scenario(api, loss, phase, T, seed):
                 return chan.sendall(b"x" * 10)
             if api == "exec_command":
                 return chan.exec_command("x")
+            if api == "invoke_shell":
+                return chan.invoke_shell()
+            if api == "get_pty":
+                return chan.get_pty()
+            if api == "invoke_subsystem":
+                return chan.invoke_subsystem("x")
+            if api == "request_x11":
+                return chan.request_x11()
             if api == "recv_exit_status":
                 return chan.recv_exit_status()
             if api == "open_session":
@@ -129,6 +144,10 @@ def scenario(api, loss, phase, T, seed):
                 res["outcome"] = "raised:" + type(e).__name__
                 res["site"] = exc_site(e)
 
+        if phase == "during":
+            return _during(api, loss, T, target, tsock, call, lose)
+        if phase == "race":
+            return _race(api, loss, T, target, chan, call, lose)
         th = threading.Thread(target=runner, daemon=True)
         if phase == "before":
             th.start()
@@ -162,6 +181,123 @@ def scenario(api, loss, phase, T, seed):
                     t.close()
             except Exception:
                 pass
+
+
+def _spawn(call):
+    res = {}
+
+    def runner():
+        try:
+            call()
+            res["outcome"] = "returned"
+        except BaseException as e:  # noqa
+            res["outcome"] = "raised:" + type(e).__name__
+
+    th = threading.Thread(target=runner, daemon=True)
+    th.start()
+    return th, res
+
+
+def _during(api, loss, T, target, tsock, call, lose):
+    """The call is made from inside the shutdown path: after each step of it that can be wrapped from outside
+    (each channel's _unlink, packetizer.close, auth_handler.abort, sock.close) a fresh caller thread enters the API;
+    the shutdown continues once that caller has returned or is parked.  Every caller must return."""
+    injected = []
+    seen = set()
+    guard = threading.Lock()
+
+    def inject(hook):
+        with guard:
+            if hook in seen:
+                return
+            seen.add(hook)
+        th, res = _spawn(call)
+        th.join(0.25)  # returned, or parked in its wait
+        injected.append((hook, th, res))
+
+    def wrap(obj, name, hook):
+        try:
+            orig = getattr(obj, name)
+        except AttributeError:
+            return
+
+        def w(*a, **k):
+            try:
+                return orig(*a, **k)
+            finally:
+                inject(hook)
+
+        try:
+            setattr(obj, name, w)
+        except Exception:
+            pass
+
+    for ch in list(target._channels.values()):
+        wrap(ch, "_unlink", "unlink")
+    wrap(target.packetizer, "close", "packetizer_close")
+    if getattr(target, "auth_handler", None) is not None:
+        wrap(target.auth_handler, "abort", "auth_abort")
+    wrap(tsock, "close", "sock_close")
+    lose()
+    gone = lib_net.wait_until(lambda: not target.is_active(), T)
+    if not gone:
+        if loss == "garbage":
+            return {"outcome": "inconclusive", "inactive": False, "detail": "garbage absorbed"}
+        return {"outcome": "still-active", "inactive": False, "detail": "transport stayed active"}
+    end = time.monotonic() + T
+    lib_net.wait_until(lambda: "sock_close" in seen, 2.0)
+    lib_net.wait_until(lambda: len(injected) == len(seen), 2.0)  # every entered caller has returned or is parked
+    blocked = []
+    for hook, th, res in injected:
+        th.join(max(0.0, end - time.monotonic()))
+        if th.is_alive():
+            blocked.append(hook)
+    if not injected:
+        return {"outcome": "inconclusive", "inactive": True, "detail": "no shutdown step could be wrapped"}
+    if blocked:
+        return {"outcome": "blocked", "inactive": True, "hooks": blocked,
+                "detail": "call entered after %s still blocked %.1fs after the loss" % ("/".join(blocked), T)}
+    return {"outcome": "returned", "inactive": True, "detail": "entered after: " + ",".join(h for h, _, _ in injected)}
+
+
+class _RacingEvent:
+    """Stands in for Channel.event: the first clear() lets the connection be lost first (the caller was
+    descheduled between its openness check and re-arming the event)."""
+
+    def __init__(self, ev, before_clear):
+        self._ev = ev
+        self._before = before_clear
+        self._done = False
+
+    def clear(self):
+        if not self._done:
+            self._done = True
+            self._before()
+        return self._ev.clear()
+
+    def __getattr__(self, n):
+        return getattr(self._ev, n)
+
+
+def _race(api, loss, T, target, chan, call, lose):
+    """Channel requests re-arm Channel.event after their openness check: the loss lands exactly in between."""
+    def before_clear():
+        if loss == "local_close":
+            threading.Thread(target=target.close, daemon=True).start()
+        else:
+            lose()
+        lib_net.wait_until(lambda: not target.is_active() and chan.closed, T)
+        time.sleep(0.05)
+
+    chan.event = _RacingEvent(chan.event, before_clear)
+    th, res = _spawn(call)
+    th.join(2 * T)
+    if not chan.event._done:
+        return {"outcome": "inconclusive", "inactive": None, "detail": "the request did not re-arm the event"}
+    if th.is_alive():
+        return {"outcome": "blocked", "inactive": not target.is_active(),
+                "detail": "request still blocked %.1fs after the loss that raced it" % T}
+    return {"outcome": res["outcome"], "inactive": not target.is_active(), "detail": ""}
 
 
 MULTI = [("send", 3), ("sendall", 3), ("recv", 2), ("accept", 2), ("recv_exit_status", 2)]
@@ -320,7 +456,9 @@ def proxy_case(mode, T):
 def run(ctx):
     lib_net.quiet_logging()
     ctx.rule = ("every blocking API x loss mode (eof, peer DISCONNECT, garbage bytes, local close) x phase "
-                "(blocked before the loss / called after it) on real Transports over a gated in-memory socket, "
+                "(blocked before the loss / called after it / entered from inside the shutdown path after each of its "
+                "steps / channel request with the loss between its openness check and its wait) on real Transports over "
+                "a gated in-memory socket, "
                 "watchdog T per call; + ProxyCommand child exit (real processes). distinct = (api, loss, phase); "
                 "non-trivial = the call was really blocked before the loss or really made after the transport died")
     ctx.assume("wake-up latency of threading primitives and OS process/pipe signalling are outside the model",
@@ -337,11 +475,19 @@ def run(ctx):
     reps = 3 if ctx.thorough else 1
 
     # ---- model side: predictions for both phases, plus schedule sweep consistency
+    rows_lm = [(r, lm) for r in sorted(set(ROW.values())) for lm in ("remote", "local")]
+    prog_len = {}
+    pl = ctx.driver("C13", ["prog %s %s" % k for k in rows_lm])
+    if pl is not None:
+        for k, line in zip(rows_lm, pl):
+            prog_len[k] = 0 if not line else len(line.split(","))
+        ctx.extra["wakeups_from_source"] = {"%s/%s" % k: v for k, v in zip(rows_lm, pl)}
     reqs, keys = [], []
     for api in APIS:
         for lm in ("remote", "local"):
             for phase in PHASES:
-                sch = ("c" + "lll") if phase == "before" else ("lll" + "c")
+                n = prog_len.get((ROW[api], lm), 3)
+                sch = ("c" + "l" * n) if phase == "before" else ("l" * n + "c")
                 reqs.append("run %s %s %s" % (ROW[api], lm, sch))
                 keys.append((api, lm, phase))
     replies = ctx.driver("C13", reqs)
@@ -389,6 +535,58 @@ def run(ctx):
             ctx.fail("transport-stays-active:%s" % l, {"api": a, "loss": l, "phase": p}, r["detail"])
         elif r.get("inactive") is False and l != "garbage":
             ctx.fail("transport-stays-active:%s" % l, {"api": a, "loss": l, "phase": p}, "call returned but is_active()")
+    # ---- calls entered DURING the shutdown (every wrap point of it), and channel requests raced by the loss
+    dreqs, dkeys = [], []
+    for row in sorted(set(ROW.values())):
+        for lm in ("remote", "local"):
+            n = prog_len.get((row, lm), 3)
+            for k in range(n + 1):
+                # k loss steps, the caller enters, (for a request: one more loss step between check and clear), rest
+                for split in (0, 1):
+                    sch = "l" * k + "c" + ("l" * min(split, n - k)) + "c" + "l" * (n - k - min(split, n - k))
+                    dreqs.append("run %s %s %s" % (row, lm, sch))
+                    dkeys.append((row, lm))
+    drep = ctx.driver("C13", dreqs)
+    dpred = {}
+    if drep is not None:
+        for k, r in zip(dkeys, drep):
+            dpred[k] = dpred.get(k, True) and ("prompt=1" in r and "fin=1" in r)
+    DAPIS = [a for a in APIS if a != "start_client"]
+    djobs = [(a, l, "during") for a in DAPIS for l in ("eof", "disconnect", "local_close")]
+    djobs += [(a, l, "race") for a in REQ_APIS for l in ("eof", "disconnect", "local_close")]
+    ctx.rng.shuffle(djobs)
+
+    def ddo(job):
+        a, l, p = job
+        try:
+            return job, scenario(a, l, p, T, repr((ctx.seed, a, l, p)))
+        except Exception as e:
+            return job, {"outcome": "inconclusive", "inactive": None, "detail": "setup: %r %s" % (e, exc_site(e))}
+
+    with ThreadPoolExecutor(max_workers=8) as ex:
+        dres = list(ex.map(ddo, djobs))
+    for (a, l, p), r in dres:
+        out = r["outcome"]
+        ctx.dist("%s:%s" % (p, out.split(":")[0]))
+        if out == "inconclusive":
+            continue
+        ctx.case((a, l, p), True)
+        if p == "race" and sum(1 for x in ctx.samples if isinstance(x, dict) and x.get("phase") == "race") < 1:
+            ctx.sample({"api": a, "loss": l, "phase": p, "result": r})
+        returned = out == "returned" or out.startswith("raised:")
+        lm = "local" if l == "local_close" else "remote"
+        row = ROW.get(a, "channel_request")
+        want = dpred.get((row, lm))
+        if want is not None and want != returned:
+            ctx.disagree("returns-after-loss:" + p, {"api": a, "loss": l, "phase": p},
+                         "returns" if want else "blocks", out)
+        if out == "blocked":
+            where = ("during@" + "/".join(r.get("hooks", []))) if p == "during" else "loss-between-check-and-wait"
+            ctx.fail("blocked:%s:%s:%s" % (a, "local_close" if l == "local_close" else "remote-loss", where),
+                     {"api": a, "loss": l, "phase": p}, r["detail"])
+        elif out == "still-active":
+            ctx.fail("transport-stays-active:%s" % l, {"api": a, "loss": l, "phase": p}, r["detail"])
+
     if inconclusive > len(jobs) // 3:
         from pv.core import InfraError
 
@@ -398,7 +596,7 @@ def run(ctx):
     mreqs, mkeys = [], []
     for api, n in MULTI:
         for lm in ("remote", "local"):
-            sch = ",".join("c%d" % i for i in range(n)) + "," + ",".join(["l"] * 3)
+            sch = ",".join("c%d" % i for i in range(n)) + "," + ",".join(["l"] * max(1, prog_len.get((ROW[api], lm), 3)))
             mreqs.append("mrun %s %s all %d %s" % (ROW[api], lm, n, sch))
             mkeys.append((api, n, lm))
     mrep = ctx.driver("C13", mreqs)
@@ -476,10 +674,16 @@ META = {
               "ProxyCommand.recv returns at EOF; witness theorems for the three repaired hangs (old "
               "accept(), old ensure_session(), old ProxyCommand.recv). The rows are tied to the code behaviourally: "
               "13 APIs x 4 loss modes x 2 phases on real Transports under a watchdog, compared with the model's "
-              "prediction, every run."),
-    "note": ("Not modelled: wake-up latency, OS thread scheduling, sockets and child-process signalling, the `during` "
-             "phase on the real code (only the model covers all interleavings). The table rows abstract each API to "
-             "its wait shape and the wake-ups each shutdown path delivers; that abstraction is validated only by the "
-             "behavioural correspondence. A call still blocked T seconds after the loss counts as blocked."),
+              "prediction, every run; plus calls entered from inside the shutdown path after each of its steps and "
+              "channel requests raced by the loss. The ORDER of the wake-ups on both shutdown paths and the guard of "
+              "Channel._event_pending are regenerated from the AST every run and the rows are built from them "
+              "(accept_is_notified_after_inactive, both_paths_close_channels; witnesses "
+              "accept_notify_before_inactive_hangs_witness, channel_request_old_hangs_when_loss_races_the_call_witness)."),
+    "note": ("Not modelled: wake-up latency, OS thread scheduling, sockets and child-process signalling. On the real "
+             "code the `during` phase is sampled at the steps of the shutdown that can be wrapped from outside (only the "
+             "model covers all interleavings). The table rows abstract each API to its wait shape (hand-written, "
+             "validated by the behavioural correspondence); the wake-ups each shutdown path delivers and their order "
+             "come from the AST (trusted: the event recogniser in pv/lib_lockdisc.teardown). A call still blocked T "
+             "seconds after the loss counts as blocked."),
     "technique": "Lean 4 proof (closed reachable set of a 2-thread interleaving model, decide +kernel + induction) + watchdog correspondence on real transports",
 }
